@@ -80,6 +80,26 @@ CHECKS = {
          "getMinDeposit skeleton; slash auto-disable. Int arithmetic and later parameter changes are not decided.",
          "A-SDK. Trusted base: go/types, x/tools v0.29.0, svclint rule tables.",
          "DESIGN.md §4 C14"),
+ "C15": ("who-may-write + guard dominance + sibling validator agreement + key grammar",
+         "Decides uniqueness/stability structure: definition and binding writers and their guards, no deletes or rewrites of identifying fields, validator coverage message vs record, record built from message fields, pricing text paired with parsed pricing, "
+         "index maintenance on create and genesis, records keyed by their own fields, exact listing scans. JSON-schema validity is not decided.",
+         "A-SIGNER20 for owner segments, A-NAME. Trusted base: go/types, x/tools v0.29.0, svclint rule tables.",
+         "DESIGN.md §4 C15"),
+ "C17": ("sibling agreement by effect signature + read-only + reconstruction provenance",
+         "Decides that gRPC methods and legacy routes are in bijection by (operation, family, builder, request-field roles), all query entries are read-only, GetRequest reconstructs every field from the right source, ids are length-checked, scans are exact. "
+         "Marshalled bytes and pagination are not decided.",
+         "Known finding: D5 (earned-fees scan). Trusted base: go/types, x/tools v0.29.0, svclint rule tables.",
+         "DESIGN.md §4 C17"),
+ "C19": ("provenance of zero-height refunds + codec/enum table agreement + field coverage",
+         "Decides zero-height refund structure (whole-family iteration, recipient/amount provenance, key parse at the segment boundary), reset constants vs validation, encoder/decoder inverse pairs per genesis map, enum name tables (incl. the proto-JSON reader table), "
+         "field coverage of export/import, stored values accepted by genesis validators. Byte-identity of a second export is not decided.",
+         "A-HOST, A-SDK (empty-coin predicate table). Trusted base: go/types, x/tools v0.29.0, svclint rule tables.",
+         "DESIGN.md §4 C19"),
+ "C20": ("determinism lint + map-range classification + panic inventory with path facts",
+         "Decides structural necessary conditions of determinism and crash-freedom over the 229 consensus-reachable functions: banned constructs, classified map ranges, explicit panics / unchecked assertions / every index and slice expression justified by a dominating length fact or a listed invariant, "
+         "mutation during iteration only at the cursor. Replay identity, sdk.Int/Dec overflow and third-party panics are not decided.",
+         "A-SDK, A-HOST. Trusted base: go/types, x/tools v0.29.0, svclint rule tables.",
+         "DESIGN.md §4 C20"),
  "C18": ("key-grammar decision + layout agreement",
          "Decides, for all byte strings under the stated segment typing, that store keys parse uniquely, prefix scans are exact sub-spaces, "
          "key slicing cuts at segment boundaries, and id writer/reader layouts agree; a grammar decision over all inputs rather than a sample. "
